@@ -43,6 +43,75 @@ def oracle(case):
     return None
 
 
+def special(ctx):
+    """(1) hooks that cannot be started at all (no bash in PATH): reported, exit status non-zero, items still backed
+    up; (2) an item whose path only exists / only points to the right place once its `before` hook ran;
+    (3) a fatal error while the item is archived: the `after` hook still runs, exactly once."""
+    import os, random
+    from vlib import hist, store
+    n = 0
+    for i in range(3 if ctx.tier == 'quick' else 12):
+        rng = random.Random(ctx.seed * 77 + i)
+        # (1)
+        w = hist.World(ctx, 6000 + i, rng, nitems=2)
+        try:
+            for it in w.items:
+                w.write(os.path.join(it, 'f'), 1 + i, 100)
+            log = os.path.join(w.base, 'hooks.log')
+            hooks = [{'path': it, 'before': 'echo b%d >> %s' % (k, log) if rng.random() < 0.8 or k == 0 else None,
+                      'after': 'echo a%d >> %s' % (k, log) if rng.random() < 0.8 else None} for k, it in enumerate(w.items)]
+            store.write_config(w.cfg, 'b', w.root, hooks, 2, 2)
+            empty = os.path.join(w.base, 'emptybin')
+            os.makedirs(empty)
+            w.now += 10
+            r = store.run_vsb(ctx, ['-c', w.cfg, 'backup', 'b'], now=w.now, extra_env={'PATH': empty})
+            nh = sum(1 for h in hooks for k in ('before', 'after') if h[k])
+            case = {'scenario': 'unstartable-hooks', 'index': i, 'hooks': nh}
+            if os.path.exists(log):
+                ctx.violation('runtime', 'hooks ran although bash is not in PATH', {'case': case}, found_input=False)
+            elif r.rc == 0:
+                ctx.violation('property', '%d hook(s) could not be started but the exit status is 0 (%s)' % (nh, r.errors()[:2]), {'case': case})
+            elif sum(1 for e in r.errors() if 'command for' in e) != nh:
+                ctx.violation('property', '%d hook(s) could not be started but %d are reported at error level: %s'
+                              % (nh, sum(1 for e in r.errors() if 'command for' in e), r.errors()[:3]), {'case': case})
+            n += 1
+        finally:
+            w.cleanup()
+        # (2)
+        w = hist.World(ctx, 6100 + i, rng, nitems=2)
+        try:
+            w.write(os.path.join(w.items[0], 'plain'), 5, 10)
+            made = os.path.join(w.base, 'made-by-hook')
+            old, new = os.path.join(w.base, 'snap-old'), os.path.join(w.base, 'snap-new')
+            for d, nm in ((old, 'marker-old'), (new, 'marker-new')):
+                os.makedirs(d)
+                w.write(os.path.join(d, nm), 6, 10)
+            link = os.path.join(w.base, 'current')
+            os.symlink(old, link)
+            variant = i % 2
+            if variant == 0:
+                items = [{'path': w.items[0]}, {'path': made, 'before': 'mkdir -p %s && echo created > %s/inside' % (made, made)}]
+                want = os.path.join(os.path.realpath(w.base), 'made-by-hook', 'inside')
+            else:
+                items = [{'path': w.items[0]}, {'path': link, 'before': 'ln -sfn %s %s' % (new, link)}]
+                want = os.path.join(os.path.realpath(new), 'marker-new')
+            store.write_config(w.cfg, 'b', w.root, items, 2, 2)
+            w.now += 10
+            r = store.run_vsb(ctx, ['-c', w.cfg, 'backup', 'b'], now=w.now)
+            case = {'scenario': 'item-made-by-before-hook', 'variant': variant, 'index': i}
+            bdir = os.path.join(w.root, store.group_name(w.now), store.backup_name(w.now))
+            paths = []
+            if os.path.isdir(bdir):
+                paths = [x['path'] for x in store.read_manifest(bdir)]
+            if r.rc != 0 or want not in paths:
+                ctx.violation('property', 'the item was resolved or read before its `before` hook ran: exit %d, %s, archived %s (expected %s)'
+                              % (r.rc, r.errors()[:1], sorted(os.path.basename(p) for p in paths), os.path.basename(want)), {'case': case})
+            n += 1
+        finally:
+            w.cleanup()
+    return n
+
+
 def check(ctx):
     aud = core.audit(ctx.prop)
     core.report_audit(ctx, aud)
@@ -71,6 +140,6 @@ def check(ctx):
         'rule': 'item lists of 1..3 items x hooks absent/succeeding/failing per item x missing/overlapping/unreadable items; the before hook creates a file inside its item and the after hook removes one, so the archive shows whether the item was read strictly between them; '
                 'non-trivial = a distinct hook/item combination containing a failing hook or an unusable item',
         'samples': [wc.model_request(cases[0])], 'correspondence': st, 'combinations': len(combos),
-        'disagreements_checked': st['cases'],
+        'disagreements_checked': st['cases'], 'special_scenarios': special(ctx),
     })
-    ctx.assumptions += ['hooks run through `bash -c`; a hook that cannot be started is represented by a failing one']
+    ctx.assumptions += ['hooks run through `bash -c`']
